@@ -48,7 +48,7 @@ func init() {
 			}
 			return 16
 		},
-		Rule: "each case = one sync of 1-2 trusted roots (world state built by 5-65 random account operations + up to 45 filler accounts sharing storage templates + optional validator list; plain MPT with 0-150 keys; receipt list with event-log tries) into an empty target through merkle.NewBuilder (layered) or NewBuilderWithRawDatabase, requests served in fifo-window/lifo/random order with the bucket id chosen as sync2 (BucketIDs()[0]), sync v1 (always BytesByHash) or swapped, the second root attached after some deliveries, and hostile deliveries interleaved: duplicates, values of foreign tries, premature true values (not yet requested), bit flips, truncation/extension, random and empty values, true values under buckets without hasher or with another hasher. Non-trivial = distinct sync (hash of its delivery log) that completed with >= 8 accepted values, >= 1 nested value (storage trie node, code, validator list, event log node) and >= 3 different hostile classes delivered.",
+		Rule: "each case = one sync of 1-2 trusted roots (world state built by 5-65 random account operations + up to 45 filler accounts sharing storage templates + (1 world in 3) contracts whose code is byte-identical to a storage-trie node, so one hash is needed in MerkleTrie and BytesByHash and both requests merge + optional validator list; plain MPT with 0-150 keys; receipt list with event-log tries) into an empty target through merkle.NewBuilder (layered) or NewBuilderWithRawDatabase, requests served in fifo-window/lifo/random order with the bucket id chosen as sync2 (BucketIDs()[0]), sync v1 (always BytesByHash) or swapped, the second root attached after some deliveries, and hostile deliveries interleaved: duplicates, values of foreign tries, premature true values (not yet requested), bit flips, truncation/extension, random and empty values, true values under buckets without hasher or with another hasher. Non-trivial = distinct sync (hash of its delivery log) that completed with >= 8 accepted values, >= 1 nested value (storage trie node, code, validator list, event log node) and >= 3 different hostile classes delivered.",
 		MinNonTrivial: func(t string) int {
 			if t == ev.Thorough {
 				return 12000
@@ -57,7 +57,8 @@ func init() {
 		},
 		Required: []string{"accepted", "rejected_duplicate", "rejected_foreign", "rejected_premature", "rejected_bitflip",
 			"rejected_nohasher-bucket", "rejected_other-hasher-bucket", "accepted_swapped-bucket", "syncs_completed",
-			"target_equals_source", "late_attach", "multi_requester_requests", "raw_builder_syncs", "layered_builder_syncs"},
+			"target_equals_source", "late_attach", "multi_requester_requests", "raw_builder_syncs", "layered_builder_syncs",
+			"merged_two_bucket_requests", "merged_first_bucket_trie", "merged_first_bucket_bytes"},
 		Assumptions: []string{
 			"a structure flushed alone into a fresh database leaves exactly its own data there (flush writes reachable nodes only; checked by C17/C14 paths)",
 			"MapDB behind the recording wrapper is a faithful store",
@@ -326,6 +327,13 @@ func (s *syncer) attach(src *source) func() []string {
 	return obs
 }
 
+// isTwin tells whether the trusted data holds the key in both sha3 buckets.
+func (s *syncer) isTwin(key []byte) bool {
+	_, a := s.needed[sm.EntryKey(db.MerkleTrie, key)]
+	_, b := s.needed[sm.EntryKey(db.BytesByHash, key)]
+	return a && b
+}
+
 func flipBit(r *rand.Rand, v []byte) []byte {
 	o := append([]byte(nil), v...)
 	if len(o) == 0 {
@@ -454,6 +462,7 @@ func run(c *ev.Ctx) {
 		order := r.Intn(3)     // 0 fifo window, 1 lifo, 2 random
 		bidMode := r.Intn(3)   // 0 sync2: BucketIDs()[0]; 1 sync v1: always BytesByHash; 2 the other sha3 bucket
 		hostileP := r.Intn(70) // percent
+		deferTwins := r.Intn(3) != 0
 		kinds := ""
 		for _, src := range srcs {
 			kinds += src.kind + ","
@@ -502,6 +511,20 @@ func run(c *ev.Ctx) {
 				return
 			}
 			list, _ = s.scan()
+			if deferTwins {
+				// hold back a value that is needed in two buckets until both
+				// requests are outstanding together (they then merge into one)
+				var keep []req
+				for _, q := range list {
+					if s.isTwin(q.key) && len(q.bids) < 2 {
+						continue
+					}
+					keep = append(keep, q)
+				}
+				if len(keep) > 0 {
+					list = keep
+				}
+			}
 			if len(list) == 0 {
 				// a "hostile" delivery happened to carry the last outstanding value
 				continue
@@ -521,6 +544,13 @@ func run(c *ev.Ctx) {
 			}
 			if len(q.bids) > 1 {
 				c.Count("multi_requester_requests", 1)
+				for _, b := range q.bids[1:] {
+					if b != q.bids[0] {
+						c.Count("merged_two_bucket_requests", 1)
+						c.Count("merged_first_bucket_"+map[db.BucketID]string{db.MerkleTrie: "trie", db.BytesByHash: "bytes"}[q.bids[0]], 1)
+						break
+					}
+				}
 			}
 			v, srcBid := s.fetch(q)
 			if s.failed {
